@@ -186,9 +186,19 @@ fn fast_path(ctx: &Ctx, shard: usize, n: usize, ev: &mut Ev) {
             lens.push(base + d - 4);
         }
     }
-    for l in lens {
-        if l % n != shard {
+    // and multi-megabyte images, every residue of the length mod 8 once per size class (an implementation may hand big inputs to
+    // a different kernel: wider slicing, hardware CRC, several lanes combined)
+    for &base in [4usize << 20, (4 << 20) + (1 << 16), 5 << 20, 8 << 20, 16 << 20].iter().take(ctx.tier.pick(3, 5)) {
+        for d in 0..8usize {
+            lens.push(base + 4 + d);
+        }
+    }
+    for (li, l) in lens.into_iter().enumerate() {
+        if li % n != shard {
             continue;
+        }
+        if l >= (1 << 22) {
+            ev.count("fastpath:multi-megabyte-images");
         }
         let mut img = vec![0u8; l];
         for b in img.iter_mut() {
@@ -454,7 +464,7 @@ pub fn run(ctx: &Ctx) -> i32 {
     });
     let mut ev = ev;
     cli_verify(ctx, &mut ev);
-    let mut floors: Vec<(&str, u64)> = vec![("cli-verify:runs-with-a-corrupted-file", 100), ("cli-verify:runs-with-only-good-files", 20), ("built-fsts-verified", 1000), ("built-fsts-verified:chunked-sink", 20), ("mutants:version", 1000), ("mutants:type", 1000), ("mutants:body", 1000), ("mutants:len", 1000), ("mutants:root-addr", 1000), ("mutants:checksum", 1000), ("fastpath:lengths", 4000), ("fastpath:forged-special-checksum-values", 100), ("fastpath:misaligned-views", 500)];
+    let mut floors: Vec<(&str, u64)> = vec![("cli-verify:runs-with-a-corrupted-file", 100), ("cli-verify:runs-with-only-good-files", 20), ("built-fsts-verified", 1000), ("built-fsts-verified:chunked-sink", 20), ("mutants:version", 1000), ("mutants:type", 1000), ("mutants:body", 1000), ("mutants:len", 1000), ("mutants:root-addr", 1000), ("mutants:checksum", 1000), ("fastpath:lengths", 4000), ("fastpath:multi-megabyte-images", 24), ("fastpath:forged-special-checksum-values", 100), ("fastpath:misaligned-views", 500)];
     let names: Vec<String> = (0..16).map(|i| format!("fastpath:len-mod-16={}", i)).collect();
     for nm in &names {
         floors.push((nm.as_str(), 100));
@@ -464,7 +474,7 @@ pub fn run(ctx: &Ctx) -> i32 {
         ev,
         Spec {
             level: "fault_enumeration",
-            rule: "five monitors. (e) the command line gate: `fst verify f1 [f2 f3]` (subprocess, the binary built from the working tree) must exit 0 over freshly built files and non-zero whenever one argument - first, middle or last - is a single-byte mutant (version incl. 3->1/2, type, body, len, root address, checksum regions in rotation). (a,b) one evaluation = one built FST (shared pool, two front ends, plus hostile chunked sinks): verify() must be Ok and the trailing 4 bytes must equal the masked CRC-32C of all preceding bytes computed by a bit-at-a-time reference. (c) one evaluation = one mutated image: for small FSTs EVERY offset x EVERY one of the 255 other byte values, plus bit flips sampled over corpus FSTs: the mutant must fail to open or fail verify() (never certified), both when opened directly and (every 4th mutant, all footer mutants) when it arrives through map_data on an FST opened from the good bytes; 2-4 byte bursts are run for panics only. (d) for every length 36..4200 (thorough 20000) a synthetic version-3 image with random body and reference checksum must verify (all lengths mod 16, all tail lengths of the slice-by-16 path) and must not verify after one bit flip; images are also verified as sub-slices at odd addresses, and for every 37th length the body is forged (GF(2) solve) so that the CORRECT stored checksum is exactly 0, 1, 0x80000000 or 0xFFFFFFFF; non-trivial = every evaluation; distinct = by construction (fst, offset, value) / fingerprint",
+            rule: "five monitors. (e) the command line gate: `fst verify f1 [f2 f3]` (subprocess, the binary built from the working tree) must exit 0 over freshly built files and non-zero whenever one argument - first, middle or last - is a single-byte mutant (version incl. 3->1/2, type, body, len, root address, checksum regions in rotation). (a,b) one evaluation = one built FST (shared pool, two front ends, plus hostile chunked sinks): verify() must be Ok and the trailing 4 bytes must equal the masked CRC-32C of all preceding bytes computed by a bit-at-a-time reference. (c) one evaluation = one mutated image: for small FSTs EVERY offset x EVERY one of the 255 other byte values, plus bit flips sampled over corpus FSTs: the mutant must fail to open or fail verify() (never certified), both when opened directly and (every 4th mutant, all footer mutants) when it arrives through map_data on an FST opened from the good bytes; 2-4 byte bursts are run for panics only. (d) for every length 36..4200 (thorough 20000) a synthetic version-3 image with random body and reference checksum must verify (all lengths mod 16, all tail lengths of the slice-by-16 path; plus images of 4, 4.06 and 5 MiB - thorough also 8 and 16 MiB - in every residue of the length mod 8) and must not verify after one bit flip; images are also verified as sub-slices at odd addresses, and for every 37th length the body is forged (GF(2) solve) so that the CORRECT stored checksum is exactly 0, 1, 0x80000000 or 0xFFFFFFFF; non-trivial = every evaluation; distinct = by construction (fst, offset, value) / fingerprint",
             assumptions: vec!["version byte 3->1/2 mutants open and report ChecksumMissing: that is 'not certified', as the statement's last clause requires".into()],
             floors,
             exhaustive: Some(true),
